@@ -1142,6 +1142,9 @@ fn sound_case(case: u64, seed: u64, want_sample: bool) -> CaseOut {
         max_outstanding: usize,
         hold: bool,
         status: u32,
+        pile_up: bool,
+        last_held: usize,
+        stalled: u32,
     }
     impl Tx {
         /// validate all newly fetched tx chains, complete them unless holding
@@ -1186,7 +1189,7 @@ fn sound_case(case: u64, seed: u64, want_sample: bool) -> CaseOut {
             }
         }
     }
-    let tx = Rc::new(RefCell::new(Tx { dev: c.dev.clone(), expect: BTreeMap::new(), period: BTreeMap::new(), viol: vec![], chunks: 0, max_outstanding: 0, hold: false, status: 0x8000 }));
+    let tx = Rc::new(RefCell::new(Tx { dev: c.dev.clone(), expect: BTreeMap::new(), period: BTreeMap::new(), viol: vec![], chunks: 0, max_outstanding: 0, hold: false, status: 0x8000, pile_up: false, last_held: usize::MAX, stalled: 0 }));
     // spin hook: control device + tx servicing (sometimes lagging, so that the queue fills up)
     {
         let dev = c.dev.clone();
@@ -1203,10 +1206,30 @@ fn sound_case(case: u64, seed: u64, want_sample: bool) -> CaseOut {
                     panic!("monitor: device-side verdict inside a busy-wait loop");
                 }
             }
-            // a slow device: only serves every few spins, letting transfers pile up
-            if lag.chance(1, 3) || spins % 64 == 0 {
-                tx2.borrow_mut().service();
+            // a slow device: in "pile-up" mode it lets transfers accumulate until the driver stops adding
+            // (queue full or nothing left to add) before it plays anything; otherwise it lags randomly
+            let mut t = tx2.borrow_mut();
+            if t.pile_up {
+                let now = {
+                    let mut d = t.dev.borrow_mut();
+                    d.observe();
+                    d.qs.get(&2).map(|q| q.held.len()).unwrap_or(0)
+                };
+                if now == t.last_held {
+                    t.stalled += 1;
+                } else {
+                    t.stalled = 0;
+                    t.last_held = now;
+                }
+                if t.stalled >= 3 {
+                    t.service();
+                    t.stalled = 0;
+                    t.last_held = usize::MAX;
+                }
+            } else if lag.chance(1, 3) || spins % 64 == 0 {
+                t.service();
             }
+            drop(t);
             if spins % devsim::SPIN_WATCHDOG == 0 {
                 panic!("monitor: spin watchdog");
             }
@@ -1344,6 +1367,12 @@ fn sound_case(case: u64, seed: u64, want_sample: bool) -> CaseOut {
                 let start = *sent_pos.borrow().get(&stream).unwrap_or(&0);
                 let frames: Vec<u8> = (0..total as u64).map(|k| pcm_byte(stream, start + k)).collect();
                 let chunks0 = tx.borrow().chunks;
+                {
+                    let mut t = tx.borrow_mut();
+                    t.pile_up = rng.bool();
+                    t.last_held = usize::MAX;
+                    t.stalled = 0;
+                }
                 let r = catch_unwind(AssertUnwindSafe(|| drv.pcm_xfer(stream, &frames)));
                 c.inc("snd_blocking_xfers");
                 c.oplog.push(format!("pcm_xfer(stream {}, {} bytes = {} periods of {} + {})", stream, total, nper, pb, tail));
